@@ -73,6 +73,8 @@ func (nopMempool) CloseWAL()                     {}
 
 // chainData: a real chain produced once by the real BlockExecutor on scratch stores.
 type chainData struct {
+	emptyHash bool
+	ihashes   [][]byte // the application's internal (never reported when emptyHash) hash after block k
 	ih      int64 // genesis InitialHeight: block k (1..n) has height ih+k-1
 	n       int
 	txs     [][]int
@@ -102,13 +104,14 @@ func (cd *chainData) next(h int64) int64 {
 	return h + 1
 }
 
-func buildChain(key string, txs [][]int, ih int64) (*chainData, error) {
-	key = fmt.Sprintf("%d|%s", ih, key)
+func buildChain(key string, txs [][]int, ih int64, emptyHash ...bool) (*chainData, error) {
+	eh := len(emptyHash) > 0 && emptyHash[0]
+	key = fmt.Sprintf("%d|%v|%s", ih, eh, key)
 	if v, ok := chainCache.Load(key); ok {
 		return v.(*chainData), nil
 	}
 	n := len(txs)
-	cd := &chainData{ih: ih, n: n, txs: txs, blocks: make([]*types.Block, n+1), parts: make([]*types.PartSet, n+1),
+	cd := &chainData{emptyHash: eh, ih: ih, n: n, txs: txs, blocks: make([]*types.Block, n+1), parts: make([]*types.PartSet, n+1),
 		commits: make([]*types.Commit, n+1), states: make([][]byte, n+1), hashes: make([][]byte, n+1),
 		resps: make([]*tmstate.ABCIResponses, n+1)}
 	genDoc := mkGenDoc(ih)
@@ -116,7 +119,7 @@ func buildChain(key string, txs [][]int, ih int64) (*chainData, error) {
 	if err != nil {
 		return nil, err
 	}
-	app := &recApp{valKey: chainPriv.PubKey()}
+	app := &recApp{valKey: chainPriv.PubKey(), emptyHash: eh}
 	stateStore := sm.NewStore(dbm.NewMemDB(), sm.StoreOptions{})
 	blockStore := store.NewBlockStore(dbm.NewMemDB())
 	pa := proxy.NewAppConns(proxy.NewLocalClientCreator(app))
@@ -157,6 +160,8 @@ func buildChain(key string, txs [][]int, ih int64) (*chainData, error) {
 		cd.blocks[h], cd.parts[h], cd.commits[h] = block, ps, commit
 		cd.states[h] = state.Bytes()
 		cd.hashes[h] = append([]byte{}, state.AppHash...)
+		_, ihash, _ := app.snapshot()
+		cd.ihashes = append(cd.ihashes, ihash)
 		cd.resps[h], _ = stateStore.LoadABCIResponses(hh)
 		lastCommit = commit
 	}
@@ -245,7 +250,7 @@ type pcase struct {
 
 func newPCase(cd *chainData, discard bool, retainK int) *pcase {
 	p := &pcase{cd: cd, genDoc: mkGenDoc(cd.ih)}
-	p.app = &recApp{valKey: chainPriv.PubKey()}
+	p.app = &recApp{valKey: chainPriv.PubKey(), emptyHash: cd.emptyHash}
 	p.app.tick = p.tick
 	if retainK >= 0 {
 		p.app.hasRet, p.app.retainK = true, int64(retainK)
@@ -404,7 +409,25 @@ func (p *pcase) line(hd string) string {
 		js = strings.Join(delta, ",")
 	}
 	return fmt.Sprintf("%s app=%d store=%d base=%d state=%d resp=%s wal=%d pv=%d heq=%s sc=%s up=%s live=%s j=%s", hd, h,
-		p.blockStore.Height(), p.blockStore.Base(), st.LastBlockHeight, resp, p.walEnd, p.pvH, bit(bytes.Equal(hash, st.AppHash)), bit(sc), bit(p.up), bit(p.live), js)
+		p.blockStore.Height(), p.blockStore.Base(), st.LastBlockHeight, resp, p.walEnd, p.pvH, bit(p.hashEq(hash, st)), bit(sc), bit(p.up), bit(p.live), js)
+}
+
+// does the application's hash equal the state's app hash? With an application that reports a
+// zero-length hash at every height the reported values are trivially equal; the comparison is then
+// made on what the hash stands for: the application's internal history digest against the one of
+// the uninterrupted run at the state's height
+func (p *pcase) hashEq(appInternal []byte, st sm.State) bool {
+	if !p.app.emptyHash {
+		return bytes.Equal(appInternal, st.AppHash)
+	}
+	if len(st.AppHash) != 0 {
+		return false
+	}
+	k := p.cd.idx(st.LastBlockHeight)
+	if k == 0 {
+		return len(appInternal) == 0
+	}
+	return k-1 < len(p.cd.ihashes) && bytes.Equal(appInternal, p.cd.ihashes[k-1])
 }
 
 // the height stored under lastABCIResponseKey: probe the public API for the height it accepts
